@@ -372,6 +372,10 @@ def handleK (j : Json) : Except String Json := do
     | "utpm2dirs" =>
       let u : NdArray K ← getArr j "x"
       pure (okArrs [utpm2dirs u])
+    | "container" =>
+      let X : NdArray K ← getArr j "x"
+      let outer ← j.getObjValAs? (List Nat) "outer"
+      pure (okArrs [containerToUtpm outer X])
     | _ => throw s!"bad-what {what}"
   | "bin" =>
     -- kinds: "uu" UTPM∘UTPM, "us" UTPM∘scalar, "ua" UTPM∘ndarray, "su" scalar∘UTPM, "au" ndarray∘UTPM
